@@ -316,7 +316,10 @@ mod e1 {
     }
 
     pub fn run(cfg: &RunCfg, n: usize, body: &(dyn Fn(usize) + Sync)) -> Outcome {
-        SPURIOUS_DEN.store(cfg.spurious_den as u64, AO::Relaxed);
+        // E1 has no per-thread cap on consecutive injected failures: never inject on every attempt
+        // (the "CAS storm" configuration is an E2 mode)
+        let den = if cfg.spurious_den == 1 { 4 } else { cfg.spurious_den };
+        SPURIOUS_DEN.store(den as u64, AO::Relaxed);
         set_hook(Some(hook));
         let mut out = Outcome::default();
         let panics = std::sync::Mutex::new(Vec::new());
